@@ -113,6 +113,35 @@ func leafType(r *coqfmt.Rng, o Opts) reflect.Type {
 	}
 }
 
+// SkippedVariant returns a struct type with the same retained fields as t
+// (hence the same pointerified form) but with additional skipped fields
+// (unexported, dials:"-", chan) inserted at random positions.
+func SkippedVariant(r *coqfmt.Rng, t reflect.Type) reflect.Type {
+	var fields []reflect.StructField
+	k := 0
+	ins := func() {
+		k++
+		switch r.Intn(3) {
+		case 0:
+			fields = append(fields, reflect.StructField{Name: fmt.Sprintf("v%d", k), PkgPath: "verifharness/gen", Type: reflect.TypeOf(0)})
+		case 1:
+			fields = append(fields, reflect.StructField{Name: fmt.Sprintf("V%d", k), Type: reflect.TypeOf(""), Tag: `dials:"-"`})
+		default:
+			fields = append(fields, reflect.StructField{Name: fmt.Sprintf("V%d", k), Type: reflect.TypeOf(make(chan int))})
+		}
+	}
+	for i := 0; i < t.NumField(); i++ {
+		if r.Chance(1, 2) {
+			ins()
+		}
+		fields = append(fields, t.Field(i))
+	}
+	if r.Chance(1, 3) {
+		ins()
+	}
+	return reflect.StructOf(fields)
+}
+
 // GenStruct draws a random struct type.
 func GenStruct(r *coqfmt.Rng, o Opts, depth int) reflect.Type {
 	n := 1 + r.Intn(o.MaxWidth)
@@ -161,6 +190,15 @@ func GenStruct(r *coqfmt.Rng, o Opts, depth int) reflect.Type {
 			sf.Tag = reflect.StructTag(fmt.Sprintf(`dials:"t%d"`, i))
 		}
 		fields = append(fields, sf)
+		// a sibling whose type differs only in skipped fields: both pointerify to the same type
+		if o.Skipped && sf.Tag == "" && !sf.Anonymous && sf.PkgPath == "" && r.Chance(1, 4) {
+			switch {
+			case sf.Type.Kind() == reflect.Struct && sf.Type.Name() == "":
+				fields = append(fields, reflect.StructField{Name: name + "v", Type: SkippedVariant(r, sf.Type)})
+			case sf.Type.Kind() == reflect.Ptr && sf.Type.Elem().Kind() == reflect.Struct && sf.Type.Elem().Name() == "":
+				fields = append(fields, reflect.StructField{Name: name + "v", Type: reflect.PtrTo(SkippedVariant(r, sf.Type.Elem()))})
+			}
+		}
 	}
 	return reflect.StructOf(fields)
 }
